@@ -156,6 +156,13 @@ func (w *faultWorld) Serve(addr string, request []byte) verifrt.Script {
 	raw, ok := w.sc.Routes[u]
 	if !ok {
 		raw = resp("404 Not Found", []string{"Content-Type: text/plain"}, "nope")
+		// decoys: every proper prefix of a redirect target is a valid document, so that a
+		// truncated Location line that is followed anyway yields a (wrong) document
+		for _, h := range w.sc.Hops {
+			if len(u) > len("https://") && len(u) < len(h) && strings.HasPrefix(h, u) {
+				raw = resp("200 OK", ct, `{"type":"Note","id":"`+u+`","content":"decoy at a truncated redirect target"}`)
+			}
+		}
 	}
 	hop := -1
 	for i, h := range w.sc.Hops {
